@@ -2,6 +2,7 @@ from ..trainer import Hook, TrainState
 
 from attrs import define, field
 import os.path
+import shutil
 
 from xformer import loading
 import torch
@@ -53,13 +54,27 @@ class SavingHook(Hook):
 
         save_dir = os.path.join(self.run_dir, f"step_{state.elapsed.step:06d}")
         print(f"Saving snapshot to {save_dir}...")
-        save_snapshot(state, save_dir)
         latest_link = os.path.join(self.run_dir, "latest")
+        # A snapshot directory is published by rename and the one `latest`
+        # designates is never rewritten; `latest` is switched by rename. A
+        # crash at any point leaves `latest` on a complete snapshot.
+        live = os.path.exists(save_dir) and os.path.realpath(
+            latest_link
+        ) == os.path.realpath(save_dir)
+        if not live:
+            tmp_dir = save_dir + ".tmp"
+            shutil.rmtree(tmp_dir, ignore_errors=True)
+            save_snapshot(state, tmp_dir)
+            # a `save_dir` that is not live is the orphan of an earlier crash
+            shutil.rmtree(save_dir, ignore_errors=True)
+            os.rename(tmp_dir, save_dir)
+        tmp_link = latest_link + ".tmp"
         try:
-            os.unlink(latest_link)
+            os.unlink(tmp_link)
         except FileNotFoundError:
             pass
         os.symlink(
             os.path.basename(save_dir),
-            latest_link,
+            tmp_link,
         )
+        os.replace(tmp_link, latest_link)
